@@ -5,7 +5,7 @@ import json
 import os
 import subprocess
 
-from vf import common, shrink as shr
+from vf import common, c13child, shrink as shr
 
 common.use_repo()
 from pydsol.core.streams import (MersenneTwister, SimpleStreamUpdater,      # noqa: E402
@@ -56,7 +56,11 @@ def gen_case(rng):
         if table and rng.random() < 0.08:
             n = rng.choice(sorted(table))
             table[n] = table[n][:max(0, min(len(table[n]), r))]
-    return {"names": names, "seeds": seeds, "updater": updater, "table": table, "r": r}
+    case = {"names": names, "seeds": seeds, "updater": updater, "table": table, "r": r}
+    if updater == "table" and rng.random() < 0.3:
+        # any dict is accepted as a seed table, also ones whose [] differs from get()
+        case["table_type"] = rng.choice(["defaultdict", "defaultdict", "missing", "ordered"])
+    return case
 
 
 def generate(seed, tier, idx=0):
@@ -83,7 +87,7 @@ def in_process(case):
     """fallback, table semantics and refusal atomicity for one case."""
     names = case["names"]
     streams = {n: MersenneTwister(case["seeds"][n]) for n in names}
-    table = {n: v for n, v in case["table"].items()}
+    table = c13child.make_table(case, list(case["table"].items()))
     r = case["r"]
     if case["updater"] == "table":
         upd = StreamSeedUpdater(table)
